@@ -701,6 +701,13 @@ int dhcp_fastpath_prog(struct xdp_md *ctx) {
 		return XDP_PASS;
 	}
 
+	/* The reply is built in place and needs room for MAX_DHCP_REPLY_OPTIONS_LEN
+	 * option bytes. Test this before the first write: XDP_PASS must hand the
+	 * request to the slow path unmodified (a minimum-size 300-byte BOOTP request
+	 * carries only 60 option bytes).
+	 */
+	CHECK_BOUNDS_PASS(pkt.dhcp->options, pkt.data_end, MAX_DHCP_REPLY_OPTIONS_LEN);
+
 	/* CACHE HIT - Fast path! Generate reply in kernel */
 	update_stat(STAT_FASTPATH_HIT);
 
@@ -765,9 +772,7 @@ int dhcp_fastpath_prog(struct xdp_md *ctx) {
 	__builtin_memset(pkt.dhcp->sname, 0, sizeof(pkt.dhcp->sname));
 	__builtin_memset(pkt.dhcp->file, 0, sizeof(pkt.dhcp->file));
 
-	/* Build DHCP options */
-	CHECK_BOUNDS_PASS(pkt.dhcp->options, pkt.data_end, MAX_DHCP_REPLY_OPTIONS_LEN);
-
+	/* Build DHCP options (room for them was checked before the first write) */
 	int opt_len = build_dhcp_options(pkt.dhcp->options, pkt.data_end,
 	                                  reply_type, pool, assignment,
 	                                  server_ip);
